@@ -39,8 +39,10 @@ def build_demo():
 # 1. with the patch
 rc, out = sh("git -C %s apply %s/patch.diff" % (WT, seed)); res["applies"] = rc == 0
 if rc: print(json.dumps(res), out); sys.exit(1)
-rc, out = sh("ninja -C %s check" % PLAIN); res["tests_pass_with_patch"] = "100% tests passed" in out and "62" in out.split("100% tests passed")[-1][:40]
-res["demo_with_patch"] = build_demo()[0]
+FAST = bool(os.environ.get("SEEDTEST_FAST"))     # regression mode: only the checks (the seed was confirmed before)
+if not FAST:
+    rc, out = sh("ninja -C %s check" % PLAIN); res["tests_pass_with_patch"] = "100% tests passed" in out and "62" in out.split("100% tests passed")[-1][:40]
+    res["demo_with_patch"] = build_demo()[0]
 # 2. the checks, on the patched tree
 os.makedirs(OUT, exist_ok=True)
 env = dict(os.environ, VERIF_REPO=WT, VERIF_BUILD=VB, VERIF_OUT=OUT)
@@ -57,6 +59,7 @@ for pid in props:
     res["checks"][pid] = {"exit": p.returncode, "violations": len(viol), "first": detail, "wall_s": round(time.time() - t0, 1), "summary": p.stdout.strip().splitlines()[-1][:200] if p.stdout.strip() else ""}
 # 3. without the patch
 sh("git -C %s checkout -- ." % WT)
-rc, out = sh("ninja -C %s ibex" % PLAIN)
-res["demo_without_patch"] = build_demo()[0]
+if not FAST:
+    rc, out = sh("ninja -C %s ibex" % PLAIN)
+    res["demo_without_patch"] = build_demo()[0]
 print(json.dumps(res, indent=1))
